@@ -107,6 +107,7 @@ def table(ld, kind):
 
 
 LOAD_ERRORS = []
+OBS_COUNT = [0]
 
 
 def observe(ld, kind, lookup, snapshots):
@@ -127,6 +128,15 @@ def observe(ld, kind, lookup, snapshots):
             gk.append(int(key))
             gt.append(sub.molecules.features["tag"].to_list())
             gl.append(dec(sub.asnumpy()))
+    OBS_COUNT[0] += 1
+    if len(rows) and OBS_COUNT[0] % 3 == 0:
+        # apply through the groups: row i of every group's table belongs to molecule i of that group, whatever the group size
+        gres = ld.groupby("v").apply([np.max, np.min, np.mean][: 2 + len(rows) % 2])
+        for gi, key in enumerate(gk):
+            tab = gres[key]
+            cols = [dec(tab[c].to_numpy()) for c in tab.columns]
+            if any(c != gl[gi] for c in cols):
+                LOAD_ERRORS.append({"indices": f"group {key} apply", "got": cols, "want": gl[gi]})
     pure = all(table(l0, kind) == t0 and np.array_equal(l0.molecules.pos, p0) for l0, t0, p0 in snapshots)
     return rows, loaded, applied, gk, gt, gl, pure
 
@@ -194,8 +204,8 @@ def corr_histories(ck, rng):
         cases.append(run_history(rng, kind, maxlen))
     ck.oracle_count("load_index_list", len(cases), len(cases))
     for e in LOAD_ERRORS[:3]:
-        ck.violation(what=f"loader.load({e['indices']}) returned the sub-volumes of molecules {e['got']} instead of {e['want']}", inp=e,
-                     key={"site": "load-index-list"}, oracle="load_index_list")
+        ck.violation(what=f"loader.load / group apply ({e['indices']}) returned the values of molecules {e['got']} instead of {e['want']}", inp=e,
+                     key={"site": "load-index-list" if not str(e["indices"]).startswith("group") else "group-apply"}, oracle="load_index_list")
     ck.corr_run("loader_histories", ["Acryo.Common.Table", "AcryoGen.Anchors_C03", "Acryo.C03.Model"], cases, shard=12 if ck.tier == "quick" else 40,
                 observable=True, describe=lambda c: {"site": "history", "kind": c["kind"], "ops": [h[0] for h in c["history"]][:6]},
                 classes=classes)
